@@ -1550,6 +1550,9 @@ class HplDataAccess(HplExpression):
             t = expr._get_next_token(t)
             self._type_check(expr, t.type)
             # expr.message_type = t
+            if expr.is_indexed:
+                # the index expression may contain references of its own
+                expr.index.type_check_references(this_msg, variables)
 
     def _get_next_token(self, token: TypeToken) -> TypeToken:
         raise NotImplementedError()
